@@ -341,3 +341,57 @@ Definition dstep (s : dstate) (o : dop) : dstate * dout * list N :=
 
 Definition dnext (s : dstate) (o : dop) : dstate := fst (fst (dstep s o)).
 Definition drun (c : cfg) (ops : list dop) : dstate := fold_left dnext ops (dinit c).
+
+(* ------------------------------------------------------------------------------------------ *)
+(* Store keys and subscriber ids as the code writes them.
+     allocationKey(id) = fmt.Sprintf("/allocation/%s/%s", poolID, id)
+     keyPrefix()       = fmt.Sprintf("/allocation/%s/", poolID)
+     handleRemoteChange: subscriberID := key[len(da.keyPrefix()):]      (used for deletes; for puts the
+                         code uses the SubscriberID field of the JSON value)
+   Ids are arbitrary byte strings ('/', "..", empty segments, ids that are suffixes of each other, an id
+   equal to the key prefix).  [wop] is the op alphabet the harness drives: remote events carry the KEY the
+   store delivered; [wtrans] derives the subscriber exactly as the code does and looks it up in the
+   case's table of subscriber ids ([intern]); local calls pass through.  An event whose id is not in the
+   table, or whose value names another subscriber than its key, is outside the Model (no-op; not driven). *)
+Definition alloc_lit : bytes := [47; 97; 108; 108; 111; 99; 97; 116; 105; 111; 110; 47].   (* "/allocation/" *)
+Definition key_prefix (pool : bytes) : bytes := alloc_lit ++ pool ++ [47].
+Definition key_of_id (pool id : bytes) : bytes := alloc_lit ++ pool ++ [47] ++ id.
+(* key[len(prefix):]; None = the slice expression panics (key shorter than the prefix: the Store contract
+   only delivers keys under the watched prefix) *)
+Definition id_of_key (pool key : bytes) : option bytes :=
+  if Nat.ltb (length key) (length (key_prefix pool)) then None else Some (skipn (length (key_prefix pool)) key).
+
+Record wire := { w_pool : bytes; w_names : list (N * bytes) }.
+Fixpoint intern (names : list (N * bytes)) (id : bytes) : option N :=
+  match names with
+  | [] => None
+  | (h, n) :: tl => if bytes_eqb n id then Some h else intern tl id
+  end.
+Definition holder_of_key (w : wire) (key : bytes) : option N :=
+  match id_of_key (w_pool w) key with Some id => intern (w_names w) id | None => None end.
+
+Inductive wop :=
+| WLocal (o : dop)
+| WRemotePut (key vid : bytes) (a pl ep : N)        (* key of the event, SubscriberID inside the value *)
+| WRemoteDel (key : bytes)
+| WEcho (key : bytes) (r : option (bytes * rec)).
+
+Definition wtrans (w : wire) (o : wop) : option dop :=
+  match o with
+  | WLocal o => Some o
+  | WRemoteDel key => match holder_of_key w key with Some h => Some (DRemoteDel h) | None => None end
+  | WRemotePut key vid a pl ep =>
+      match holder_of_key w key, intern (w_names w) vid with
+      | Some h, Some h' => if h =? h' then Some (DRemotePut h a pl ep) else None
+      | _, _ => None
+      end
+  | WEcho key None => match holder_of_key w key with Some h => Some (DEcho h None) | None => None end
+  | WEcho key (Some (vid, r)) =>
+      match holder_of_key w key, intern (w_names w) vid with
+      | Some h, Some h' => if h =? h' then Some (DEcho h (Some r)) else None
+      | _, _ => None
+      end
+  end.
+Definition wstep (w : wire) (s : dstate) (o : wop) : dstate * dout * list N :=
+  match wtrans w o with Some d => dstep s d | None => (s, mkout s ROk, []) end.
+Definition wnext (w : wire) (s : dstate) (o : wop) : dstate := fst (fst (wstep w s o)).
